@@ -56,7 +56,7 @@ def run_one_shard(prop_id, spec, idx, keep=False):
 def merge(results):
     m = {'evaluations': 0, 'classes': collections.Counter(), 'nontrivial': set(), 'samples': [],
          'probes': collections.Counter(), 'required': {}, 'violations': {}, 'unkeyed': [], 'unkeyed_count': 0,
-         'inconclusive': [], 'anchors': collections.Counter(), 'extra': []}
+         'inconclusive': [], 'anchors': collections.Counter(), 'extra': [], 'unkeyed_hist': collections.Counter()}
     seen_sample_cls = set()
     for r in results:
         m['evaluations'] += r['evaluations']
@@ -76,6 +76,7 @@ def merge(results):
                 if len(ent['witnesses']) < 3:
                     ent['witnesses'].append(w)
         m['unkeyed_count'] += r['unkeyed_count']
+        m['unkeyed_hist'].update(r.get('unkeyed_hist', {}))
         for u in r['unkeyed']:
             if len(m['unkeyed']) < 10:
                 m['unkeyed'].append(u)
@@ -219,6 +220,10 @@ def main(argv=None):
             print(l)
         for l in lines:
             print(l)
+        for d, c in m['unkeyed_hist'].most_common(15):
+            print('  unkeyed x%d: %s' % (c, d))
+        for r in inconclusive[:5]:
+            print('  (also inconclusive: %s)' % str(r)[:300])
         return 1
     if inconclusive:
         for r in inconclusive[:10]:
